@@ -1,7 +1,7 @@
 #!/bin/sh
 # runs every registered check at the given tier (default quick); prints one line per check
 tier=${1:-quick}
-cd /verif
+cd "$(dirname "$0")/.." || exit 2   # the tree this script lives in (a vp-run snapshot runs itself, not /verif)
 for id in $(python3 -c "import json;print(' '.join(c['property_id'] for c in json.load(open('MANIFEST.json'))['checks']))"); do
   out=$(bin/verif check $id --tier $tier 2>&1); rc=$?
   echo "$id rc=$rc $(echo "$out" | grep '^check ' | cut -c1-220)"
